@@ -1003,6 +1003,7 @@ def run_watchdog(case):
     trig_d = pending = 0
     wait_run = 0
     wait_prev = 0
+    crg_bad = None
     paused = 0
     timeouts = feeds_running = saturated = 0
     exp = []
@@ -1037,11 +1038,10 @@ def run_watchdog(case):
         got_rst = probe.trace[c][4]
         must1 = bool(wait) and wait_run >= delay
         must0 = (wait_run < delay) if delay >= 1 else (not wait and not wait_prev)
-        if (must1 and not got_rst) or (must0 and got_rst):
-            return bad("watchdog-crg-reset",
-                       "Watchdog(width=%d, reset_delay=%d, crg_rst=Signal()): cycle %d crg_rst=%d; enable=%d, timed out=%d, reset mode=%d, "
-                       "condition held for the last %d cycles" % (width, delay, c, got_rst, enable, execute, rmode, wait_run),
-                       key="c19:watchdog:reset-delay-0" if (delay == 0 and must0) else "c19:watchdog:crg-reset", cycles=cyc)
+        if ((must1 and not got_rst) or (must0 and got_rst)) and crg_bad is None:
+            crg_bad = (c, "Watchdog(width=%d, reset_delay=%d, crg_rst=Signal()): cycle %d crg_rst=%d; enable=%d, timed out=%d, reset "
+                       "mode=%d, condition held for the last %d cycles" % (width, delay, c, got_rst, enable, execute, rmode, wait_run),
+                       "c19:watchdog:reset-delay-0" if (delay == 0 and must0) else "c19:watchdog:crg-reset")
         exp.append((remaining, trig, pending, pending & ien, got_rst))
         wait_run = wait_run + 1 if wait else 0
         wait_prev = wait
@@ -1062,6 +1062,8 @@ def run_watchdog(case):
                 saturated += 1                      # stays at zero, never wraps
     cls = ["watchdog:w%d" % width, "watchdog:delay%d" % delay]
     i = _first_diff(exp, probe.trace)
+    if crg_bad is not None and (i is None or crg_bad[0] < i):
+        return bad("watchdog-crg-reset", crg_bad[1], key=crg_bad[2], cls=cls, cycles=cyc)
     if i is not None:
         names = ["remaining", "timeout-event", "pending", "irq", "crg-reset"]
         j = _first_diff(exp[i], probe.trace[i])
@@ -1498,6 +1500,7 @@ def st_uartcore(tier, flush=False):
             else:
                 ops.append([draw(gap), "ien", draw(st.integers(0, 3))])
         if flush:
+            depth_tx = min(depth_tx, 4)          # keeps the drain phase (and the shrinker's re-runs) short
             # PHY not ready for longer than the flush time-out (16 cycles), then ready for a few cycles, ...
             txs = ["rle", [[b, draw(st.integers(17, 30)) if b == 0 else draw(st.integers(1, 6))] for _ in range(3) for b in (0, 1)]]
             return {"dtx": depth_tx, "drx": depth_rx, "rx_we": draw(st.booleans()), "ops": ops, "rx": [], "rxs": ["const", 1],
@@ -1605,14 +1608,14 @@ def run_uartcore(case):
 
 def subchecks():
     return [
-        Sub("timer", run_timer, strategy=st_timer, examples=(300, 8000), shards=(6, 16),
+        Sub("timer", run_timer, strategy=st_timer, examples=(264, 8000), shards=(6, 16),
             rule="Timer: CSR histories of load/reload/en/update_value/pending/enable writes; count, zero event, one-shot "
                  "after exactly `load` cycles, reload, stop, latch, uptime; nt = reload at zero and a disable"),
-        Sub("uart-tx", run_uart_tx, strategy=st_uart_tx, examples=(320, 6000), shards=(10, 16),
+        Sub("uart-tx", run_uart_tx, strategy=st_uart_tx, examples=(260, 6000), shards=(10, 16),
             rule="RS232PHYTX / RS232PHY: bytes, gaps 0.. between offers, tuning words with 4..48 (thorough 400) cycles per bit; "
                  "per-frame monitor: start, 8 data LSB first, stop, every cell boundary within 1 cycle of start + k*2^32/tw, "
                  "one handshake per byte, idle 1; nt = >= 2 bytes with a back-to-back offer"),
-        Sub("uart-rx", run_uart_rx, strategy=st_uart_rx, examples=(320, 6000), shards=(12, 16),
+        Sub("uart-rx", run_uart_rx, strategy=st_uart_rx, examples=(264, 6000), shards=(12, 16),
             rule="RS232PHYRX: fractional-time line driver, eps within the measured envelope, start phase n/16 cycle, gaps 0..3 bit, "
                  "every good frame is delivered once, in order, during its own stop bit; framing errors and breaks must not "
                  "deliver and must not disturb later frames; nt = |eps| >= 1.5 % or gap 0"),
@@ -1654,7 +1657,7 @@ def subchecks():
         Sub("spim-divider", run_spim, strategy=lambda tier: st_spim(tier, shrink_div=True), examples=(48, 800), shards=(1, 16),
             rule="as spim, but the divider register is also lowered between transfers (kept apart because of finding "
                  "c19:spim:divider-shrink-stall, so that the search in 'spim' continues)"),
-        Sub("spim", run_spim, strategy=st_spim, examples=(320, 8000), shards=(10, 16),
+        Sub("spim", run_spim, strategy=st_spim, examples=(280, 8000), shards=(10, 16),
             rule="SPIMaster behind its CSRs with an ideal mode-0 slave (Migen) on the pads: data_width 8..32, raw/aligned, 1..3 cs "
                  "lines, divider 2..64 raised at run time, loopback, start offsets swept over the divider phase, second start / "
                  "mosi rewrite during a transfer, next start 0..5 cycles after done; nt = >= 2 transfers, one started mid-phase"),
